@@ -892,4 +892,8 @@ def run(P, R, tier):
     rules.no_static_locals(P, R, 'C15.WMC.9', P.unit_fns(P.need_fn('conf_read').unit), 'configuration code')
     # settings keep copies of the texts they are given, except the documented hand-overs
     rules.param_string_escapes(P, R, 'C15.OWN.9', ('src/config.c', 'src/common.c'))
+    # "or its registered default if the file omits it": the default is still what was registered, however often a
+    # setting has fallen back to it
+    from . import c14 as _c14
+    _c14.defaults_read_only(P, R, 'C15.OWN.2')
     return EXPLANATION, ASSUMPTIONS
